@@ -1171,3 +1171,138 @@ def C18(ck):
                       'together with yields/sleeps injected at the hooks: stream and decoded output must be identical (Trace_Multi); the same plus the model '
                       'schedules in a -race build: any race report whose stack is in the repository is a violation')
     ck.assumptions += ['absence of a race report is not a proof of race freedom: only executed schedules are observed']
+
+
+# ------------------------------------------------------------------------------------------------
+LEVEL['C14'] = 'model_checking'
+
+
+def _bitout_cfg(maxbits, bitsops, arrops, fail='{}', buf=64):
+    mc = '---- MODULE MC_B ----\nEXTENDS KzBitOut\nMCBits == {%s}\nMCArr == {%s}\nMCFail == %s\n====\n' % (bitsops, arrops, fail)
+    c = ('CONSTANTS\n BUF = %d\n MaxBits = %d\n BitsOps <- MCBits\n ArrOps <- MCArr\n FailFlush <- MCFail\nSPECIFICATION Spec\n'
+         'INVARIANTS Image Closed Counter CleanCur InBuffer PanicOnlyOnFault\nCHECK_DEADLOCK FALSE\n') % (buf, maxbits)
+    return mc, c
+
+
+def _bitin_cfg(impl, chunks, bitsops, arrops, n=96, buf=64, errat=-1, invs='InOrder NoSpuriousEOF ErrOnlyWhenNeeded Counter'):
+    mc = '---- MODULE MC_I ----\nEXTENDS KzBitIn\nMCChunks == {%s}\nMCBits == {%s}\nMCArr == {%s}\nMCErrAt == %s\n====\n' % (
+        chunks, bitsops, arrops, ('0-1' if errat < 0 else str(errat)))
+    c = ('CONSTANTS\n N = %d\n BUF = %d\n Chunks <- MCChunks\n BitsOps <- MCBits\n ArrOps <- MCArr\n ErrAt <- MCErrAt\n Impl = "%s"\n'
+         'SPECIFICATION Spec\nINVARIANTS %s\nCHECK_DEADLOCK FALSE\n') % (n, buf, impl, invs)
+    return mc, c
+
+
+def _bit_programs(dot, rng, kind, max_paths):
+    """Operation programs from the edge cover of a KzBitOut / KzBitIn state graph."""
+    import re
+    nodes, edges, inits = kzv.parse_dot(dot)
+    paths = kzv.edge_cover_paths(nodes, edges, inits, max_len=200, rng=rng, max_paths=max_paths)
+    progs = []
+    for path in paths:
+        ops, chunks = [], []
+        for k in path:
+            lbl = edges[k][2]
+            m = re.match(r'(\w+?)Op(?:\((\d+)(?:,\s*(\d+))?\))?$', lbl)
+            if not m:
+                continue
+            name, a, b = m.group(1), m.group(2), m.group(3)
+            if name in ('WriteBits', 'ReadBits'):
+                ops.append({'op': 'bits', 'n': int(a)})
+            elif name in ('WriteBit', 'ReadBit'):
+                ops.append({'op': 'bit', 'n': 1})
+            elif name in ('WriteArray', 'ReadArray'):
+                ops.append({'op': 'array', 'n': int(a)})
+            if kind == 'in':
+                c = int(b) if b else int(a)
+                if c not in chunks:
+                    chunks.append(c)
+        if ops:
+            progs.append((ops, chunks))
+    return progs, len(edges), len(nodes)
+
+
+def C14(ck):
+    from concurrent.futures import ThreadPoolExecutor
+    T = thorough(ck)
+    rng = random.Random(ck.seed * 29 + 3)
+    out_runs = [(_bitout_cfg(700 if T else 600, '1,7,8,33,64', '8,64,65,200,256,257,520'), True, 'out A'),
+                (_bitout_cfg(600, '1,3,63', '0,1,9,63,448,456,512,1000' if T else '0,9,63,448,456,512'), True, 'out B'),
+                (_bitout_cfg(560, '8,64', '64,256,448', fail='{1}'), False, 'out flush 1 fails'),
+                (_bitout_cfg(560, '3,8', '64,300,456', fail='{2}'), False, 'out flush 2 fails')]
+    in_runs = [(_bitin_cfg('fixed', '1,7,8,13,64', '3,8,33', '8,64,128,300'), True, 'in A'),
+               (_bitin_cfg('fixed', '5,9,64', '1,7,64', '0,63,256,520' if T else '63,256,520', n=120), True, 'in B'),
+               (_bitin_cfg('fixed', '7,64', '3,8', '64,128', errat=40), False, 'in source error at 40'),
+               (_bitin_cfg('fixed', '1,64', '3,8', '64,300', errat=70), False, 'in source error at 70')]
+    selftests = [(_bitin_cfg('asis', '1,7,8,64', '3,8', '64,128,300'), 'asis short reads: spurious end of data'),
+                 (_bitin_cfg('asis', '13,64', '3,8', '64,128,300'), 'asis short reads: bits out of order')]
+
+    def one(job):
+        (mc, c), dump, label, mod = job
+        d = kzv.scratch('bits')
+        args = ['-dump', 'dot,actionlabels', os.path.join(d, 'g.dot')] if dump else []
+        return kzv.tlc(mod, c, workers=2, timeout=3000, extra_files={mod + '.tla': mc}, args=args, workdir=d, heap='4g'), d
+    jobs = [(r[0], r[1], r[2], 'MC_B') for r in out_runs] + [(r[0], r[1], r[2], 'MC_I') for r in in_runs] + [(s[0], False, s[1], 'MC_I') for s in selftests]
+    with ThreadPoolExecutor(max_workers=6) as ex:
+        results = list(ex.map(one, jobs))
+    progs = []
+    import shutil
+    for job, (res, d) in zip(jobs, results):
+        label = job[2]
+        if label.startswith('asis'):
+            ck.cov.setdefault('selftests', []).append({'cfg': label, 'violated': res.violated})
+            if not res.violated:
+                raise kzv.ToolFailure('vacuity self-test did not fail: ' + label)
+        else:
+            ck.add_tlc(res, 'KzBit' + label)
+            if not res.ok:
+                raise kzv.ToolFailure('bit stream spec fails its own check (%s): %s' % (label, res.out[-2000:]))
+            if job[1]:
+                kind = 'in' if job[3] == 'MC_I' else 'out'
+                pr, ne, nn = _bit_programs(os.path.join(d, 'g.dot'), rng, kind, None if T else 400)
+                ck.cov['model_edges'] = ck.cov.get('model_edges', 0) + ne
+                for ops, chunks in pr:
+                    for realbuf in ((1024, 2048, 16384) if T else (1024,)):
+                        progs.append({'ops': ops, 'bufW': realbuf, 'bufR': realbuf, 'fill': realbuf - 64, 'chunks': chunks or rng.choice([[], [1], [7], [13, 5, 64]]),
+                                      'src': 'model'})
+                    progs.append({'ops': ops, 'bufW': 1024, 'bufR': 1024, 'fill': 0, 'chunks': chunks or [], 'src': 'model'})
+        shutil.rmtree(d, ignore_errors=True)
+    kzh = kzv.build_harness()
+    base = os.path.join(kzv.BUILD, 'tlc', 'bits_%d' % os.getpid())
+    with open(base + '.progs', 'w') as fh:
+        for p in progs:
+            fh.write(json.dumps(p) + '\n')
+    cmd = [kzh, 'bits', '-n', str(30000 if T else 3000), '-seed', str(ck.seed), '-progs', base + '.progs', '-out', base + '.ndjson', '-sum', base + '.sum']
+    if T:
+        cmd.append('-thorough')
+    rc, so, se, dt = kzv.run(cmd, timeout=3 * 3600)
+    if rc != 0:
+        raise kzv.ToolFailure('bits driver failed: ' + se[-1500:])
+    summ = json.load(open(base + '.sum'))
+    res = kzv.validate_trace('Trace_Bits', base + '.ndjson', timeout=3000)
+    if res.error or res.violated:
+        raise kzv.ToolFailure('Trace_Bits failed: %s %s\n%s' % (res.error, res.violated, res.out[-1500:]))
+    tr = kzv.read_ndjson(base + '.ndjson')
+    ck.cov['states'] += res.distinct
+    ck.cov['transitions'] += res.generated
+    seen = set()
+    for e, pred in _violations_from(res.out, tr):
+        key = (pred, e['src'], e['firstBad'][:30])
+        if key in seen or len(seen) > 12:
+            continue
+        seen.add(key)
+        ck.violation({'kind': 'bits', 'pred': pred, 'src': e['src'], 'firstBad': e['firstBad'], 'wPanic': e['wPanic'], 'rPanic': e['rPanic'],
+                      'bufW': e['bufW'], 'bufR': e['bufR']}, {'cmd': 'bits', 'program': json.loads(e['desc'])}, name='bits')
+    ck.cov['evaluations'] += summ['runs']
+    ck.cov['distinct_nontrivial'] += summ['distinct']
+    ck.cov['traces_validated_against_impl'] += summ['runs']
+    ck.cov['programs_by_origin'] = summ['byMode']
+    for s in summ['samples'][:2]:
+        ck.sample({'program': {k: (v if k != 'ops' else v[:12]) for k, v in s.items()}})
+    ck.cov['rule'] = ('KzBitOut.tla and KzBitIn.tla (the real paths: accumulator, buffer thresholds, aligned / unaligned bulk paths, partial words, refill, '
+                      'deferred error, Close) model-checked against the bit vector reference for a 64-byte buffer over operation menus around the 8/32-byte '
+                      'and 64/256-bit thresholds, all source chunkings, failing sink / source; the edge cover of each graph becomes programs executed on the '
+                      'real streams (started so that the first buffer boundary falls where the model has it) and random long programs for buffers 1 KiB..256 KiB '
+                      'and chunked sources; every operation is compared with a bit vector; Trace_Bits.tla judges counters (prefix sums of the operation sizes), '
+                      'byte image, values read, refusal after Close. non-trivial = distinct program with >= 2 operations')
+    for f in (base + '.progs', base + '.ndjson', base + '.sum'):
+        os.remove(f)
